@@ -36,8 +36,9 @@ mod c07 {
         vk_assert!(t1f >= 0.0 && dt3 >= 0.0 && dt2 >= 0.0, "C07.ctor.accepted_implies_non_negative_durations");
         vk_end!();
     }
-    fn free_profile() -> (MotionProfile, Parts) {
-        let (t1, t2, t3): (i64, i64, i64) = (kani::any(), kani::any(), kani::any());
+    fn free_profile() -> (MotionProfile, Parts) { free_profile_with(None, None) }
+    fn free_profile_with(t1c: Option<i64>, t2c: Option<i64>) -> (MotionProfile, Parts) {
+        let (t1, t2, t3): (i64, i64, i64) = (match t1c { Some(x) => x, None => kani::any() }, match t2c { Some(x) => x, None => kani::any() }, kani::any());
         let (sp, sv, ma) = (sym_f32(), sym_f32(), sym_f32());
         let end = Command::new(sym_kind(), sym_f32());
         let m = MotionProfile::vk_from_parts(Quantity::new(sp, MILLIMETER), Quantity::new(sv, MILLIMETER_PER_SECOND), Time(t1), Time(t2), Time(t3),
@@ -50,7 +51,12 @@ mod c07 {
     // (D3) exact f32 facts at t = 0 (finite parts, move not yet complete) and after completion
     #[kani::proof]
     fn c07_endpoints_exact() {
-        let (m, p) = free_profile();
+        let (m, p) = match sk(0) {
+            // which phase contains t = 0 is fixed by the job's skeleton: the zero boundaries are CONCRETE zeros
+            1 => free_profile(),
+            2 => free_profile_with(Some(0), None),
+            _ => free_profile_with(Some(0), Some(0)),
+        };
         kani::assume(p.sp.is_finite() && p.sv.is_finite() && p.ma.is_finite());
         kani::assume(p.t1 >= 0 && p.t2 >= 0 && p.t3 >= 0);
         // which phase contains t = 0 is fixed by the job's skeleton before the accessors run
@@ -186,16 +192,16 @@ def lemmas():
 
 def spec(ctx):
     hs = [
-        Harness("c07_constructor_is_spec", "e2", split=True, timeout=120, allow_fail=CTOR_REJECTS, clause="constructor kinematics (sign, t1, dt2, dt3, ns truncation) == spec tree, all f32 inputs"),
+        Harness("c07_constructor_is_spec", "e2", split=True, timeout=400, allow_fail=CTOR_REJECTS, clause="constructor kinematics (sign, t1, dt2, dt3, ns truncation) == spec tree, all f32 inputs"),
     ] + [Harness("c07_phase_%d" % ph, "e2", split=True, timeout=150, skeletons=[(0,), (1,), (2,)], clause="phase %s: acceleration / velocity / position == closed forms at every i64 time in the phase, arbitrary parts (hook)" % PHASE_NAMES[ph]) for ph in range(5)] + [
-        Harness("c07_endpoints_exact", "e2", split=True, timeout=150, skeletons=[(a, b) for a in (1, 2, 3) for b in (0, 1, 2)], clause="v(0) = v0, p(0) = p0 (finite parts); after completion the end command's value exactly"),
+        Harness("c07_endpoints_exact", "e2", split=True, timeout=300, skeletons=[(a, b) for a in (1, 2, 3) for b in (0, 1, 2)], clause="v(0) = v0, p(0) = p0 (finite parts); after completion the end command's value exactly"),
     ]
     nd = ["size of the f32 rounding error and of the ns truncation of t1..t3 (the numerical tolerance itself): (R) lemmas are over the reals",
           "phase boundaries at or beyond 2^60 ns"]
-    if not ctx.quick:
-        hs.append(Harness("c07_negation_symmetry", "e2", split=True, timeout=900, allow_fail=CTOR_REJECTS, clause="negating positions and velocities negates every output (two-run differential)"))
-    else:
-        nd.append("negation symmetry: attempted in the thorough tier only (composition of sign-symmetric f32 operations, non-structural)")
+    # measured (thorough run, 2026-10-03): the two-run negation differential does not finish in 900 s per obligation on either solver
+    # (each f32 operation is sign-symmetric, but the composition through the constructor is non-structural); the harness stays in
+    # the generated crate for reference but is in neither tier.
+    nd.append("'negating all positions and velocities negates every output exactly': NOT decided (cvc5 and z3 exceed 900 s); over the reals it follows from the (R) lemmas' formulas being odd in (p, v)")
     return {
         "crates": [{"rust": RUST.replace("@PHASES@", "".join(phase_fn(ph) for ph in range(5))), "harnesses": hs}],
         "lemmas": lemmas(),
